@@ -112,6 +112,20 @@ CLAIMED["C16"] = (
     "documented behaviour.",
     "DESIGN.md 3/C16",
 )
+CLAIMED["C15"] = (
+    "differential (coercion vs validation, value path vs literal path, rule vs coercion) plus reference "
+    "coercion R4 and a conformance predicate, over type-directed generated input types, values (conforming, "
+    "near-miss, adversarial Python objects, look-alike containers) and literals (constant and variable-bearing)",
+    "For every generated (type, value) and (type, literal): coercion returns Undefined exactly when validation "
+    "reports an error, results conform to the type and equal the specification's coercion on JSON-like values "
+    "and constant literals, value_to_literal of an accepted value coerces back to the same result, "
+    "ValuesOfCorrectTypeRule accepts a constant argument exactly when it coerces, get_argument_values never "
+    "reaches the internal fallback, and get_variable_values returns errors or a conforming value for every "
+    "provided or defaulted variable.",
+    "R4 is my reading of the specification's input coercion; mapping keys are strings; custom scalars are "
+    "identity scalars.",
+    "DESIGN.md 3/C15",
+)
 PENDING_REASON = (
     "check under construction in this session (DESIGN.md section 3 has its design); it is not claimed "
     "until it has run quietly on the unchanged tree at several seeds"
